@@ -1,7 +1,13 @@
-/- Model driver for property C14: one line = one history (space-separated ops); answer = the
-needUpdate flag after each op (0/1), then the freshness of the final read. -/
+/- Model driver for property C14.
+   * one line = one history (space-separated ops); answer = the needUpdate flag after each op (0/1);
+   * `wiring <Class>`: the dependency table (hand-written, Model/Sources.lean) and the registrations extracted from the
+     constructors (Gen/C14/Observers.lean) of a simulation class: "deps=a;b observed=a;b";
+   * `hist <Class> <ops>` with ops `read` / `set <holder expression without spaces>`: the flag after each op in the
+     observer-wiring model of that class. -/
 import EasyFEAVerif.Model.Proto
 import EasyFEAVerif.Model.Coherence
+import EasyFEAVerif.Model.Sources
+import EasyFEAVerif.Gen.C14.Observers
 
 open EasyFEAVerif EasyFEAVerif.Coherence
 
@@ -24,7 +30,30 @@ def run (ops : List Op) : String :=
     | o :: os => let s' := step s o; go s' os ((if s'.needUpdate then "1" else "0") :: acc)
   " ".intercalate (go init ops [])
 
+def parseSrcOps : List String → Option (List Sources.Op)
+  | [] => some []
+  | "read" :: r => (parseSrcOps r).map (Sources.Op.read :: ·)
+  | "set" :: x :: r => if Sources.holders.contains x then (parseSrcOps r).map (Sources.Op.set (Sources.idOf x) :: ·) else none
+  | _ => none
+
+def runSrc (w : Sources.Wiring) (ops : List Sources.Op) : String :=
+  let rec go (s : Sources.State) (ops : List Sources.Op) (acc : List String) : List String :=
+    match ops with
+    | [] => acc.reverse
+    | o :: os => let s' := Sources.step w s o; go s' os ((if s'.needUpdate then "1" else "0") :: acc)
+  " ".intercalate (go Sources.init ops [])
+
 def main : IO Unit := protoMain fun line =>
-  match parseOps (tokens line) with
-  | some ops => run ops
-  | none => "bad-op"
+  match tokens line with
+  | ["wiring", c] =>
+    match Sources.depsOf.lookup c, Gen.C14.observersOf.lookup c with
+    | some ds, some os => s!"deps={";".intercalate ds} observed={";".intercalate os}"
+    | _, _ => "unknown-class"
+  | "hist" :: c :: r =>
+    match Sources.depsOf.lookup c, Gen.C14.observersOf.lookup c, parseSrcOps r with
+    | some ds, some os, some ops => runSrc { deps := ds.map Sources.idOf, observed := os.map Sources.idOf } ops
+    | _, _, _ => "bad-op"
+  | toks =>
+    match parseOps toks with
+    | some ops => run ops
+    | none => "bad-op"
